@@ -458,7 +458,7 @@ func (P *Program) newVC(fn *ssa.Function, con *Contract) *VC {
 		S.bv = true
 	}
 	return &VC{P: P, S: S, fn: fn, con: con, declSet: map[string]bool{}, used: map[string]bool{}, inlined: map[string]bool{},
-		cellSort: map[string]Sort{}, cellType: map[string]types.Type{}, callOrd: map[string]int{}, ufDecl: map[string]bool{}}
+		cellSort: map[string]Sort{}, cellType: map[string]types.Type{}, callOrd: map[string]int{}, ufDecl: map[string]bool{}, iterField: map[string]string{}}
 }
 
 // genVC builds the obligations of one function under contract.
@@ -524,18 +524,63 @@ func (P *Program) genVC(con *Contract) (*FuncResult, *VC) {
 	res, est, er := f.exit()
 	if est != nil {
 		f.cur, f.curReach = est, er
+		// postconditions are evaluated at every return site (no ite-merged exit state in the goal)
+		perReturn := func(e Clause) string {
+			var parts []string
+			for _, r := range f.rets {
+				t := f.evalClause(e, r.st, f.entry, r.vals, nil)
+				parts = append(parts, implies(r.reach, t))
+			}
+			return and(parts...)
+		}
+		_ = res
+		f.curReach = "true"
 		for i, e := range con.Ensures {
-			t := f.evalClause(e, est, f.entry, res, nil)
+			t := perReturn(e)
 			o := vc.addObl(f, "post", fmt.Sprintf("ensures[%s]", clauseName(e, i)), t, e.Src, fn.Pos())
 			_ = o
 		}
 		for i, e := range con.MustFail {
-			t := f.evalClause(e, est, f.entry, res, nil)
+			t := perReturn(e)
 			o := vc.addObl(f, "must_fail", fmt.Sprintf("must_fail[%s]", clauseName(e, i)), t, e.Src, fn.Pos())
 			o.MustFail = true
 		}
+		f.curReach = er
 	} else if len(con.Ensures) > 0 {
 		vc.errf("%s: no return is reachable", con.Key)
+	}
+	// frame: a heap cell written by the body but not listed in `modifies` must be unchanged on every object that
+	// was alive at entry (it may only have been written on objects allocated by this call); callers rely on that.
+	if est != nil {
+		declared := map[string]bool{}
+		for _, m := range con.Modifies {
+			declared[P.modKey(m)] = true
+		}
+		var keys []string
+		for k := range est.cells {
+			keys = append(keys, k)
+		}
+		sort.Strings(keys)
+		aliveEntry := f.getCell(f.entry, "ghost:alive", aliveSort)
+		for _, k := range keys {
+			if strings.HasPrefix(k, "L:") || strings.HasPrefix(k, "V:") || k == "ghost:alive" || k == "ghost:lastCtxErrNil" || declared[k] || con.ModAll {
+				continue
+			}
+			srt := vc.cellSort[k]
+			entryV := f.getCell(f.entry, k, srt)
+			exitV := est.cells[k]
+			if entryV == exitV {
+				continue
+			}
+			var goal string
+			if strings.HasPrefix(srt, "(Array Int ") && (strings.HasPrefix(k, "H:") || strings.HasPrefix(k, "D:") || strings.HasPrefix(k, "M:") || k == "ghost:iterpos") {
+				goal = fmt.Sprintf("(forall ((fr Int)) (=> (select %s fr) (= (select %s fr) (select %s fr))))", aliveEntry, exitV, entryV)
+			} else {
+				goal = eq(exitV, entryV)
+			}
+			f.cur, f.curReach = est, er
+			vc.addObl(f, "frame", fmt.Sprintf("frame[%s].only-fresh-objects-written", k), goal, "cell "+k+" is not in `modifies`: it must be unchanged on objects alive at entry", fn.Pos())
+		}
 	}
 	// vacuity: requires + every assumed callee postcondition / invariant must not be contradictory at the exit
 	_ = nReq
